@@ -91,7 +91,7 @@ class Hash(Engine):
                "race-build:" + hd.get("x", "0"),
                "base-size:" + ("0" if n == 0 else "1" if n == 1 else "2-7" if n <= 7 else "8-64" if n <= 64 else "65+")]
         kinds = {e[0] for _, es in vs for e in es}
-        for k, lab in (("d", "has-directory"), ("m", "has-missing"), ("l", "has-dangling-link"), ("n", "has-parent-is-file"), ("v", "has-vanishing")):
+        for k, lab in (("d", "has-directory"), ("m", "has-missing"), ("l", "has-dangling-link"), ("n", "has-parent-is-file"), ("v", "has-vanishing"), ("r", "has-read-error")):
             if k in kinds:
                 out.append(lab)
         for lab in sorted({lab for lab, _ in vs[1:]}):
